@@ -190,9 +190,15 @@ class PyUnit:
         else:
             # fragment subject: a contiguous statement range inside the function, located by source anchors on
             # every run; the "parameters" are the locals live at its entry (typed by the sidecar)
-            stmts = find_fragment(fn, src, frag["start"], frag["end"])
+            if "select" in frag:
+                # structural selection: the contract picks the statement range (and the roles of locals) off the function's ast;
+                # it returns (statements, roles) or raises StaleContract
+                stmts, roles = frag["select"](fn)
+                e.roles = roles
+            else:
+                stmts = find_fragment(fn, src, frag["start"], frag["end"])
             if stmts is None:
-                raise StaleContract("fragment %r .. %r not found in %s" % (frag["start"], frag["end"], self.qualname))
+                raise StaleContract("fragment %r .. %r not found in %s" % (frag.get("start"), frag.get("end"), self.qualname))
             ftext = "\n".join(ast.get_source_segment(src, x) or "" for x in stmts)
             for (nm, _k), a in zip(self.params, args):
                 st.vars[nm] = a
@@ -289,3 +295,36 @@ class PyUnit:
         rep = self.native(model or {}, ob.name if ob is not None else None)
         rep.setdefault("obligation", ob.name if ob is not None else None)
         return rep
+
+
+def guard_prefix(fn, allowed_calls=(), stop=None):
+    """Structural fragment selector: the longest prefix of the function body (docstring skipped) whose statements are 'decision code' -
+    assignments, if / elif / else, return, assert, pass, expression statements - and contain no call other than to the names / attribute
+    names in `allowed_calls` (and never a loop, try or with).  `stop(stmt)` may end the prefix earlier (the statement for which it first
+    answers True is the last one included).  What follows the prefix (node construction, code generation) is not part of the subject."""
+    ok_stmt = (ast.Assign, ast.AugAssign, ast.AnnAssign, ast.If, ast.Return, ast.Assert, ast.Pass, ast.Expr)
+
+    def callee_name(c):
+        f = c.func
+        return f.id if isinstance(f, ast.Name) else f.attr if isinstance(f, ast.Attribute) else None
+
+    def decision(s):
+        for n in ast.walk(s):
+            if isinstance(n, ast.stmt) and not isinstance(n, ok_stmt):
+                return False
+            if isinstance(n, ast.Call) and callee_name(n) not in allowed_calls:
+                return False
+            if isinstance(n, (ast.ListComp, ast.GeneratorExp, ast.DictComp, ast.SetComp, ast.Lambda)):
+                return False
+        return True
+    body = list(fn.body)
+    if body and isinstance(body[0], ast.Expr) and isinstance(body[0].value, ast.Constant) and isinstance(body[0].value.value, str):
+        body = body[1:]
+    out = []
+    for s in body:
+        if not decision(s):
+            break
+        out.append(s)
+        if stop is not None and stop(s):
+            break
+    return out
